@@ -4,7 +4,6 @@ package c17
 
 import (
 	"bytes"
-	"encoding/json"
 	"fmt"
 	"os"
 	"os/exec"
@@ -41,7 +40,10 @@ func innermost(stack string) (fn string, scheduled bool) {
 		if strings.Contains(f, "vsched.(*Sched).threadMain") {
 			scheduled = true
 		}
-		if fn == "" && !strings.HasPrefix(f, "runtime.") && !strings.HasPrefix(f, "internal/") && !strings.HasPrefix(f, "sync.") && !strings.HasPrefix(f, "sync/") {
+		// the innermost frame that is interpreter or harness code: frames of the Go runtime and of the standard library
+		// (strconv.AppendFloat, bytes.(*Buffer).Write, math/big ... called by the interpreter with its own shared data)
+		// are skipped, the access is attributed to their caller
+		if fn == "" && (strings.HasPrefix(f, "github.com/") || strings.HasPrefix(f, "verif/") || strings.HasPrefix(f, "main.")) {
 			fn = f
 		}
 	}
@@ -113,9 +115,21 @@ func execRace(spec string) (res engine.Result) {
 		res.Fail("harness:race-pass-timeout scenario="+sc.name, inner)
 		return
 	}
-	var in engine.Result
-	if err := json.Unmarshal(out.Bytes(), &in); err != nil {
-		res.Fail("harness:race-binary-output scenario="+sc.name, err.Error()+" stderr: "+errb.String())
+	in, ok := parseResult(out.Bytes())
+	if !ok {
+		// the race child died: a fatal Go error inside one execution is a failure of the scenario, not of the harness
+		if f, isFatal := fatalFailure(sc, spec, errb.String(), "race build, "+inner); isFatal {
+			res.Counters = map[string]int{"fatal-go-errors": 1, "race-executions": 1}
+			res.Nontrivial = true
+			if sc.negative {
+				res.Counters["race-negative-control-detected"] = 1
+				return
+			}
+			res.Failures = append(res.Failures, f)
+			res.Outcome = "race:" + sc.name + ":fatal:" + f.Sig
+			return
+		}
+		res.Fail("harness:race-binary-output scenario="+sc.name, "no result; stderr: "+tailStr(errb.String(), 1500))
 		return
 	}
 	res.Counters = map[string]int{}
